@@ -105,6 +105,9 @@ int vp_harness_main(void) {
 
   /* ---- the library */
   dbuf_t out; int have_out = 0;
+#ifdef FAULT
+  { uint32_t fk = vp_in_u32(); ASSUME(fk < FAULT); vp_fail_alloc_at = vp_alloc_count + (int)fk; }   /* C19 */
+#endif
 #if SRC == L1
   CONV(&out, usenull ? (src_t *)0 : in, n);
 #elif DST == L1
@@ -113,6 +116,10 @@ int vp_harness_main(void) {
   CONV(&out, usenull ? (src_t *)0 : in, n, mode);
 #endif
   for (uint64_t i = 0; i < N; i++) if (i < n) ASSERT(in[i] == sh[i], "input is not modified");
+#ifdef FAULT
+  vp_fail_alloc_at = -1;
+  if (vp_exc_pending && vp_exc_kind == VP_EXC_BAD_ALLOC) { REACH("allocation-failure path"); vp_clear_exception(); ASSERT(vp_live_blocks == 0, "no leak after the failed conversion"); REACH("end of harness"); return 0; }
+#endif
   if (vp_exc_pending) {
     ASSERT(vp_exc_kind == VP_EXC_UNICODE, "the only exception a conversion throws is ST::unicode_error");
     ASSERT(rthrow, "library rejects => reference rejects (no spurious unicode_error)");
